@@ -47,7 +47,7 @@ package core
 //@   ensures[detached] old(l.count) > 0 ==> old(l.head).prev == nil && old(l.head).next == nil
 
 //@ func MsgQueue.AllDone
-//@   props C01 C09
+//@   props C01 C03 C09
 //@   flags pure
 //@   requires mwf(l)
 //@   ensures[witness] !result ==> (exists i int :: 0 <= i && i < l.count && !mqm(l, i).Done)
